@@ -76,4 +76,26 @@ def Race (c : Config) : Prop :=
     ti.rest = ei :: esi ∧ tj.rest = ej :: esj ∧
     ((ei = .write f ∧ (ej = .write f ∨ ej = .read f)) ∨ (ej = .write f ∧ ei = .read f))
 
+/-- a method path is ONE critical section: once it has released the lock it never takes it again, so
+    nothing it decided under the lock can be stale when it acts on it (no check-then-act window) -/
+def singleSectionFrom : Bool → List Ev → Bool
+  | _, [] => true
+  | released, .lock :: es => !released && singleSectionFrom released es
+  | released, .rlock :: es => !released && singleSectionFrom released es
+  | _, .unlock :: es => singleSectionFrom true es
+  | _, .runlock :: es => singleSectionFrom true es
+  | released, .read _ :: es => singleSectionFrom released es
+  | released, .write _ :: es => singleSectionFrom released es
+
+def singleSection (es : List Ev) : Bool := singleSectionFrom false es
+
+def Ev.isAccess : Ev → Bool
+  | .read _ => true
+  | .write _ => true
+  | _ => false
+
+def Ev.isRead : Ev → Bool
+  | .read _ => true
+  | _ => false
+
 end Car.Locks
